@@ -5,6 +5,7 @@
      MC_RngMT_3t.cfg     3 threads x <= 3 calls                          exhaustive  (23 k states, 2 s)
      MC_RngMT_2tL.cfg    2 threads x <= 6 calls          thorough        exhaustive  (4.6 M states, 40 s)
      MC_RngMT_3tL.cfg    3 threads x <= 4 calls          thorough        exhaustive  (3.7 M states, 48 s)
+     MC_RngMT_4t.cfg     4 threads x <= 3 calls          thorough        exhaustive  (474 k states, 38 s)
      MC_RngMT_live.cfg   2 threads x <= 3 calls, FairSpec => Returns     exhaustive (liveness)
      MC_RngMT_fail.cfg   2 threads x <= 3 calls, rngInit may fail        exhaustive
      MC_RngMT_race.cfg   PublishAtomic = FALSE: TLC must report NoRace  (the model-level
